@@ -28,6 +28,7 @@ type disp struct {
 type NestedRec struct {
 	Op        string   `json:"op"`
 	Transport string   `json:"transport"`
+	How       string   `json:"how"`
 	Depth     int      `json:"depth"`
 	QSize     int      `json:"qsize"`
 	Completed bool     `json:"completed"`
@@ -67,16 +68,32 @@ func serve(path string, get func(ctx context.Context, p string) ([]byte, error),
 	set(codes.Content, []byte("plain"))
 }
 
-func nestedUDP(depth, qsize int) NestedRec {
-	r := NestedRec{Op: "nested", Transport: "udp", Depth: depth, QSize: qsize, Dispatch: []disp{}, Log: []string{}, Ev: []int{}}
+// how: the blocking call the handler issues - "con" (confirmable GET), "non" (non-confirmable GET), "blockwise"
+// (GET through the block-wise layer)
+func nestedUDP(depth, qsize int, how string) NestedRec {
+	r := NestedRec{Op: "nested", Transport: "udp", How: how, Depth: depth, QSize: qsize, Dispatch: []disp{}, Log: []string{}, Ev: []int{}}
 	cnt := &counts{n: map[string]int{}}
 	u := conns.NewUDP(func(cfg *udpclient.Config) {
 		cfg.ReceivedMessageQueueSize = qsize
+		cfg.BlockwiseEnable = how == "blockwise"
 		cfg.Handler = func(w *responsewriter.ResponseWriter[*udpclient.Conn], req *pool.Message) {
 			cnt.inc(req.Token())
 			p, _ := req.Path()
 			serve(p, func(ctx context.Context, q string) ([]byte, error) {
-				resp, err := w.Conn().Get(ctx, q)
+				var resp *pool.Message
+				var err error
+				if how == "non" {
+					var nreq *pool.Message
+					nreq, err = w.Conn().NewGetRequest(ctx, q)
+					if err != nil {
+						return nil, err
+					}
+					nreq.SetType(message.NonConfirmable)
+					resp, err = w.Conn().Do(nreq)
+					w.Conn().ReleaseMessage(nreq)
+				} else {
+					resp, err = w.Conn().Get(ctx, q)
+				}
 				if err != nil {
 					return nil, err
 				}
@@ -167,7 +184,7 @@ func finishNested(r NestedRec, cnt *counts) NestedRec {
 }
 
 func nestedTCP(depth, qsize int) NestedRec {
-	r := NestedRec{Op: "nested", Transport: "tcp", Depth: depth, QSize: qsize, Dispatch: []disp{}, Log: []string{}, Ev: []int{}}
+	r := NestedRec{Op: "nested", Transport: "tcp", How: "con", Depth: depth, QSize: qsize, Dispatch: []disp{}, Log: []string{}, Ev: []int{}}
 	cnt := &counts{n: map[string]int{}}
 	t := conns.NewTCP(func(cfg *tcpclient.Config) {
 		cfg.ReceivedMessageQueueSize = qsize
@@ -256,7 +273,9 @@ func RunNested(out string) {
 	for k := 0; k < reps; k++ {
 		for _, q := range []int{0, 1, 16} {
 			for d := 1; d <= 3; d++ {
-				w.Put(nestedUDP(d, q))
+				for _, how := range []string{"con", "non", "blockwise"} {
+					w.Put(nestedUDP(d, q, how))
+				}
 				w.Put(nestedTCP(d, q))
 			}
 		}
